@@ -16,7 +16,8 @@ Notation lo := LS.lo.
 Notation hi := LS.hi.
 
 Definition to_v (v : var) : S.ventry :=
-  S.mkV (v_name v) (v_loc v) (match v_refer v with Some e => S.ref_of_exp e | None => S.RNone end) (v_empty v).
+  S.mkV5 (v_name v) (v_loc v) (match v_refer v with Some e => S.ref_of_exp e | None => S.RNone end) (v_empty v)
+         (v_init v) (v_tab v).
 Definition tvs (st : stack) : list (list S.ventry) := map (map to_v) st.
 
 Lemma lc_eq a b : loc_contains a b = S.loc_contains a b.
@@ -24,9 +25,19 @@ Proof. unfold loc_contains, S.loc_contains. zb. Qed.
 
 Lemma cp_eq v l : correct_position v l = S.is_correct_position (to_v v) l.
 Proof.
-  unfold correct_position, S.is_correct_position, to_v. cbn [S.v_loc S.v_ref].
+  unfold correct_position, S.is_correct_position, S.init_hides, to_v. cbn [S.v_loc S.v_ref S.v_init S.v_tab].
   change (loc_before (v_loc v) l) with (S.loc_before (v_loc v) l).
   destruct (S.loc_before (v_loc v) l); [|reflexivity]. cbn [negb].
+  replace (match v_init v with
+           | Some il => loc_contains il l && negb (match v_tab v with Some tl => loc_contains tl l | None => false end)
+           | None => false
+           end)
+    with (match v_init v with
+          | Some il => S.loc_contains il l && negb (match v_tab v with Some tl => S.loc_contains tl l | None => false end)
+          | None => false
+          end)
+    by (destruct (v_init v); [|reflexivity]; destruct (v_tab v); rewrite ?lc_eq; reflexivity).
+  match goal with |- (if ?c then _ else _) = _ => destruct c end; [reflexivity|].
   destruct (v_refer v) as [e|]; [|reflexivity]. destruct e; cbn [S.ref_of_exp]; rewrite ?lc_eq; reflexivity.
 Qed.
 
@@ -344,53 +355,55 @@ Section ULaid.
   Qed.
 
   (* ---- local *)
-  Lemma local_rest_as_map lc : forall ns ls ats,
-    local_rest ns ls ats lc
+  Lemma local_rest_as_map il lc : forall ns ls ats,
+    local_rest il ns ls ats lc
     = map AAdd (map (fun x : name * loc * attr =>
-                       mkVar (fst (fst x)) (snd (fst x)) false (match snd x with AttrClose => true | _ => false end) false lc
-                             (match lc with Some _ => false | None => true end) [])
+                       mkVar10 (fst (fst x)) (snd (fst x)) false (match snd x with AttrClose => true | _ => false end) false lc
+                               (match lc with Some _ => false | None => true end) [] il None)
                     (combine (combine ns ls) ats)).
   Proof.
     induction ns as [|n ns' IH]; intros ls ats; [reflexivity|]. destruct ls as [|l ls']; [reflexivity|].
     destruct ats as [|a ats']; [reflexivity|]. cbn [local_rest combine map fst snd]. rewrite IH. reflexivity.
   Qed.
 
-  Lemma local_rest_direct lc ns ls ats A B st :
+  Lemma local_rest_direct il lc ns ls ats A B st :
     (forall l, In l ls -> idok W l /\ hi W l <= B) ->
     match lc with Some e => InReg W (S.ref_of_exp e) A B | None => True end ->
+    match il with Some i => colok W i /\ hi W i <= B | None => True end ->
     st <> [] ->
-    clean_run true (local_rest ns ls ats lc) st = true /\
-    EvoS W A B (tvs st) (tvs (stack_run (local_rest ns ls ats lc) st)).
+    clean_run true (local_rest il ns ls ats lc) st = true /\
+    EvoS W A B (tvs st) (tvs (stack_run (local_rest il ns ls ats lc) st)).
   Proof.
-    intros Hp Hreg Hn. rewrite local_rest_as_map. apply addl_direct; [|exact Hn]. intros v Hv. apply in_map_iff in Hv.
+    intros Hp Hreg Hil Hn. rewrite local_rest_as_map. apply addl_direct; [|exact Hn]. intros v Hv. apply in_map_iff in Hv.
     destruct Hv as [[[n l] at_] [<- Hin]]. apply in_combine_l in Hin. apply in_combine_r in Hin.
-    destruct (Hp l Hin) as [Hid Hh]. unfold to_v. cbn [v_name v_loc v_refer v_empty fst snd].
-    apply (LL.Born_of_InReg W); [exact Hid|exact Hh|]. destruct lc; [exact Hreg|exact I].
+    destruct (Hp l Hin) as [Hid Hh]. unfold to_v. cbn [v_name v_loc v_refer v_empty v_init v_tab fst snd].
+    apply (LL.Born_of_InReg5 W); [exact Hid|exact Hh| |exact Hil]. destruct lc; [exact Hreg|exact I].
   Qed.
 
   (* since fixes/C07-multi-local-order.diff: the initialisers (a piece over [c0, B]), then the names *)
-  Lemma local_adds_direct : forall es ns ls ats cA B st,
+  Lemma local_adds_direct il : forall es ns ls ats cA B st,
     (forall l, In l ls -> idok W l /\ hi W l <= B) ->
     (forall e, In e es -> InReg W (S.ref_of_exp e) cA B) ->
+    match il with Some i => colok W i /\ hi W i <= B | None => True end ->
     st <> [] ->
-    clean_run true (local_add_acts ns ls ats es) st = true /\
-    EvoS W cA B (tvs st) (tvs (stack_run (local_add_acts ns ls ats es) st)).
+    clean_run true (local_add_acts il ns ls ats es) st = true /\
+    EvoS W cA B (tvs st) (tvs (stack_run (local_add_acts il ns ls ats es) st)).
   Proof.
-    induction es as [|e es' IH]; intros ns ls ats cA B st Hp He Hn.
-    - cbn [local_add_acts]. apply (local_rest_direct None ns ls ats cA B st); auto.
+    induction es as [|e es' IH]; intros ns ls ats cA B st Hp He Hil Hn.
+    - cbn [local_add_acts]. apply (local_rest_direct il None ns ls ats cA B st); auto.
     - assert (Hnil : clean_run true [] st = true /\ EvoS W cA B (tvs st) (tvs (stack_run [] st))).
       { split; [reflexivity|]. cbn [stack_run fold_left].
         destruct (tvs st) as [|vs r] eqn:Et; [apply tvs_nonempty in Hn; contradiction|]. apply Evo_EvoS. apply Evo_refl. }
       destruct ns as [|n ns']; [exact Hnil|]. destruct ls as [|l ls']; [exact Hnil|].
       destruct ats as [|at_ ats']; [exact Hnil|]. clear Hnil.
       cbn [local_add_acts].
-      set (v := mkVar n l false (match at_ with AttrClose => true | _ => false end) (is_func_exp e) (Some e)
-                      (local_refer_empty n e) []).
+      set (v := mkVar10 n l false (match at_ with AttrClose => true | _ => false end) (is_func_exp e) (Some e)
+                        (local_refer_empty n e) [] il (S.tab_of_exp e)).
       destruct (Hp l (or_introl eq_refl)) as [Hid Hh].
       assert (Hreg : InReg W (S.ref_of_exp e) cA B) by (apply He; left; reflexivity).
       assert (Hb : forall v0, In v0 [v] -> Born W cA B (to_v v0)).
-      { intros v0 [<-|[]]. unfold to_v, v. cbn [v_name v_loc v_refer v_empty].
-        apply (LL.Born_of_InReg W); [exact Hid|exact Hh|exact Hreg]. }
+      { intros v0 [<-|[]]. unfold to_v, v. cbn [v_name v_loc v_refer v_empty v_init v_tab].
+        apply (LL.Born_of_InReg5 W); [exact Hid|exact Hh|exact Hreg|exact Hil]. }
       destruct (addl_direct [v] cA B st Hb Hn) as [A1 A2]. cbn [map] in A1, A2.
       pose proof (EvoS_ne _ _ _ _ A2) as Hn2.
       assert (Hp' : forall l0, In l0 ls' -> idok W l0 /\ hi W l0 <= B).
@@ -399,13 +412,13 @@ Section ULaid.
       + assert (Hlc : match (if is_call_exp e then Some e else None) with
                         | Some e0 => InReg W (S.ref_of_exp e0) cA B | None => True end).
         { destruct (is_call_exp e); [exact Hreg|exact I]. }
-        destruct (local_rest_direct (if is_call_exp e then Some e else None) ns' ls' ats' cA B
-                    (stack_run [AAdd v] st) Hp' Hlc Hn2) as [R1 R2].
+        destruct (local_rest_direct il (if is_call_exp e then Some e else None) ns' ls' ats' cA B
+                    (stack_run [AAdd v] st) Hp' Hlc Hil Hn2) as [R1 R2].
         change (AAdd v :: ?r) with ([AAdd v] ++ r).
         rewrite clean_run_app, stack_run_app, A1, R1. split; [reflexivity|].
         eapply EvoS_trans; [exact A2|exact R2].
       + destruct (IH ns' ls' ats' cA B (stack_run [AAdd v] st) Hp'
-                     ltac:(intros e0 He0; apply He; right; exact He0) Hn2) as [R1 R2].
+                     ltac:(intros e0 He0; apply He; right; exact He0) Hil Hn2) as [R1 R2].
         change (AAdd v :: ?r) with ([AAdd v] ++ r).
         rewrite clean_run_app, stack_run_app, A1, R1. split; [reflexivity|].
         eapply EvoS_trans; [exact A2|exact R2].
@@ -416,18 +429,19 @@ Section ULaid.
     Forall PeL es -> forallb frag_exp es = true ->
     chain W c0 (flat_map LS.m_exp es) B ->
     (forall l0, In l0 ls -> idok W l0 /\ hi W l0 <= c0) -> cA <= c0 ->
+    match S.init_loc ns ls es l with Some i => colok W i /\ hi W i <= B | None => True end ->
     st <> [] -> GU st c0 B ->
     clean_run true (fst (tr_stat (SLocal ns ls ats es l) flv slv g)) st = true /\
     EvoS W cA B (tvs st) (tvs (stack_run (fst (tr_stat (SLocal ns ls ats es l) flv slv g)) st)).
   Proof.
-    intros es ns ls ats g cA c0 B st Hl Ha Hle Hall Hf Hch Hp HcA Hn Hg.
+    intros es ns ls ats g cA c0 B st Hl Ha Hle Hall Hf Hch Hp HcA Hil Hn Hg.
     pose proof (chain_le W _ _ _ Hch) as HcB.
     rewrite tr_stat_local, local_vis_thread, (local_visited_all es ns ls ats Hl Ha Hle).
     pose proof (thread_exps_laid flv es g c0 B Hall Hf Hch) as P.
     destruct (thread (fun x g0 => tr_exp x None flv g0) es g) as [a1 g1]. cbn [fst] in *.
     destruct (P st Hn Hg) as [P1 P2].
     assert (Hn1 : stack_run a1 st <> []) by exact (Evo_ne _ _ _ _ P2 Hn).
-    destruct (local_adds_direct es ns ls ats cA B (stack_run a1 st)) as [R1 R2]; auto.
+    destruct (local_adds_direct (S.init_loc ns ls es l) es ns ls ats cA B (stack_run a1 st)) as [R1 R2]; auto.
     - intros l0 Hl0. destruct (Hp l0 Hl0) as [A1 A2]. split; [exact A1|lia].
     - intros e He. exact (InReg_widen W _ _ _ cA B (LL.exps_inreg W es c0 B Hch e He) HcA (Z.le_refl B)).
     - rewrite clean_run_app, stack_run_app, P1, R1. split; [reflexivity|].
@@ -606,12 +620,13 @@ Section ULaid.
              | H : (_ <=? _)%nat = true |- _ => apply Nat.leb_le in H
              end.
       intros st Hn Hg.
-      destruct (local_go_laid flv slv l es ns ls ats g c0 c0 b st ltac:(assumption) ltac:(assumption) ltac:(assumption)
-                              IHe ltac:(assumption) C2) as [P1 P2]; auto.
-      + intros l0 Hl0. destruct (chain_ids W _ _ _ C1 l0 Hl0) as [A1 [_ A3]]. auto.
-      + apply Z.le_refl.
-      + exact (G_sub W _ _ _ _ _ Hg L1 (Z.le_refl b)).
-      + split; [exact P1|]. exact (EvoS_widen W _ _ _ _ _ _ P2 L1 (Z.le_refl b)).
+      destruct (LL.local_marks_chain W ns ls es l c0 b C2) as (c1 & c2 & Lc1 & Lc2 & C3 & Hil).
+      pose proof (chain_le W _ _ _ C3) as L3.
+      destruct (local_go_laid flv slv l es ns ls ats g c0 c1 c2 st ltac:(assumption) ltac:(assumption) ltac:(assumption)
+                              IHe ltac:(assumption) C3) as [P1 P2]; auto.
+      + intros l0 Hl0. destruct (chain_ids W _ _ _ C1 l0 Hl0) as [A1 [_ A3]]. split; [exact A1|lia].
+      + assert (La1 : a <= c1) by lia. exact (G_sub W _ _ _ _ _ Hg La1 Lc2).
+      + split; [exact P1|]. exact (EvoS_widen W _ _ _ _ _ _ P2 L1 Lc2).
     - (* SLocalFunc *) intros n nl f l [_ IHf] Hf flv slv g a b Hch. cbn [frag_stat] in Hf. bs Hf.
       destruct f; try discriminate. cbn [ExpLF LS.m_stat] in *.
       rewrite !app_assoc in Hch. destruct (chain_region W _ _ _ _ Hch) as [Hc [H2 [H3 H4]]].
